@@ -134,6 +134,6 @@ fn main() {
             .as_ref()
             .map(|(v, heap)| rich(sim.env.get_program(), heap, v));
         writeln!(out, "{}", json!({"id": j["id"], "outcome": outcome, "rich": richv.into_iter().collect::<Vec<_>>(), "type": ty, "crashes": sim.crashes,
-            "type_text": sim.env.format_type(sim.repl.get_last_result_type())})).unwrap();
+            "type_text": quiver_core::format::format_type(sim.repl.verif_program(), sim.repl.get_last_result_type())})).unwrap();
     }
 }
